@@ -63,6 +63,92 @@ func fieldCoverage(e *vc.Engine, rules []fieldRule) []StructResult {
 	return out
 }
 
+// marshalUnits: the proof of the two big tables written by Marshal (sessions, channels), split so that every
+// solver query sees only the invariants it needs: one unit per family of clauses, the families it builds
+// on assumed (vc.UnitOpts.AssumeGroups) and proved by their own units. Families of the channel table:
+// inner (the invariants of the four loops over the current channel), keys/shape (what is known about every
+// entry built so far), and chanRepr/chanNicksW in five pieces, each carried (o-: outer loop invariant, k-:
+// kept across the work on the current channel, b-: holds for the entry just built, f-: holds when the
+// snapshot is assembled) by its own unit. The session table is split the same way. Two rules learnt the
+// hard way: "every element has a key" and "every key has an element" never meet in one query (together
+// they are a matching loop), and every existential that a new list element witnesses gets that element
+// named by an assert@after append.
+func marshalUnits() []UnitPlan {
+	const fn = "ircserver.IRCServer.Marshal"
+	var units []UnitPlan
+	mk := func(prove, assume []string) {
+		units = append(units, UnitPlan{fn, vc.UnitOpts{Asserts: true, Groups: prove, AssumeGroups: assume}})
+	}
+	cat := func(ls ...[]string) []string {
+		var out []string
+		for _, l := range ls {
+			out = append(out, l...)
+		}
+		return out
+	}
+	l := func(s ...string) []string { return s }
+	// the channel table
+	cur := l("chanw-cur")
+	inner := l("chanw-cur", "chanw-nicks", "chanw-nshape", "chanw-nsound", "chanw-ncomplete", "chanw-modes", "chanw-modes2", "chanw-bans")
+	keys := l("chanw-o-keys", "chanw-k-keys", "chanw-b-key", "chanw-f-keys", "chanw-distinct", "chanw-f-distinct")
+	shape := l("chanw-o-shape", "chanw-k-shape", "chanw-b-shape", "chanw-f-shape")
+	mk(cur, nil)
+	mk(l("chanw-modes", "chanw-modes2"), cur)
+	mk(l("chanw-member", "chanw-member2"), cur)
+	mk(l("chanw-nicks"), cur)
+	mk(l("chanw-nshape"), l("chanw-cur", "chanw-nicks", "chanw-member"))
+	mk(l("chanw-nsound"), l("chanw-cur", "chanw-nicks", "chanw-nshape", "chanw-member"))
+	mk(l("chanw-ncomplete"), l("chanw-cur", "chanw-nicks", "chanw-nshape", "chanw-member", "chanw-member2"))
+	mk(l("chanw-bans"), cur)
+	mk(keys, inner)
+	mk(shape, cat(inner, keys))
+	for _, x := range l("scalars", "msound", "mcomplete", "bans", "members") {
+		mk(l("chanw-o-"+x, "chanw-k-"+x, "chanw-b-"+x, "chanw-f-"+x), cat(inner, keys, shape))
+	}
+	mk(l("chanw-final"), l("chanw-f"))
+	// the session table
+	scur := l("sess-cur")
+	smodes := l("sess-modes", "sess-modes2")
+	sshape := l("sess-shape", "sess-k-shape", "sess-b-key", "sess-b-shape", "sess-f-shape")
+	skeys := l("sess-keys", "sess-k-keys", "sess-f-keys")
+	mk(scur, nil)
+	mk(smodes, scur)
+	mk(sshape, cat(scur, smodes))
+	mk(skeys, cat(scur, sshape))
+	for _, x := range l("repr", "msound", "mcomplete") {
+		mk(l("sess-"+x, "sess-k-"+x, "sess-b-"+x, "sess-f-"+x), cat(scur, sshape, skeys, smodes))
+	}
+	mk(l("setw-local"), scur)
+	mk(l("setwc-local"), scur)
+	mk(l("setw$", "setw-k", "setw-b", "setw-f$"), cat(scur, sshape, skeys, l("setw-local")))
+	mk(l("setwc$", "setwc-k", "setwc-b", "setwc-f$"), cat(scur, sshape, skeys, l("setwc-local")))
+	// completeness (every session has an entry) never sees the keys family (every entry has a session)
+	mk(l("sess-complete", "sess-f-complete", "sess-appended"), cat(scur, sshape))
+	mk(l("sess-distinct", "sess-f-distinct"), cat(scur, sshape, skeys))
+	mk(l("sess-same", "sess-final", "setw-final", "setwc-final"), l("sess-f", "setw-f$", "setwc-f$"))
+	// every assumed group must be proved (not merely assumed) by a unit of this list
+	proved := map[string]bool{}
+	for _, u := range units {
+		for _, g := range u.Opts.Groups {
+			proved[g] = true
+		}
+	}
+	for _, u := range units {
+		for _, a := range u.Opts.AssumeGroups {
+			ok := proved[a] || proved[a+"$"] || proved[strings.TrimSuffix(a, "$")]
+			for g := range proved {
+				if strings.HasPrefix(g, a+"-") {
+					ok = true // a is a prefix group (chanw-f): its members are proved piecewise
+				}
+			}
+			if !ok {
+				panic("C03: clause group " + a + " is assumed but proved by no unit")
+			}
+		}
+	}
+	return units
+}
+
 func init() {
 	g := func(groups ...string) vc.UnitOpts { return vc.UnitOpts{Asserts: true, Groups: groups} }
 	post := vc.UnitOpts{Post: true, Frame: true}
@@ -84,14 +170,16 @@ func init() {
 	p.Prepare = func(e *vc.Engine) error {
 		p.Units = []UnitPlan{
 			{"ircserver.timestampToTime", post}, {"ircserver.timeToTimestamp", post},
-			{"ircserver.IRCServer.Marshal", g("sess")}, {"ircserver.IRCServer.Marshal", g("config")}, {"ircserver.IRCServer.Marshal", g("holds")}, {"ircserver.IRCServer.Marshal", g("chanw")}, {"ircserver.IRCServer.Marshal", g("chanwc")},
-			{"ircserver.IRCServer.Marshal", g("setw")}, {"ircserver.IRCServer.Marshal", g("setwc")},
-			{"ircserver.IRCServer.Marshal", vc.UnitOpts{AssertsOnly: true, Groups: []string{"sess", "sessnicks"}}},
+			{"ircserver.IRCServer.Marshal", g("config")}, {"ircserver.IRCServer.Marshal", g("holds")}, {"ircserver.IRCServer.Marshal", g("chanwc")},
+			{"ircserver.IRCServer.Marshal", vc.UnitOpts{AssertsOnly: true, Groups: []string{"sessnicks"}, AssumeGroups: []string{"sess-f", "sess-same"}}},
 			{"ircserver.IRCServer.Unmarshal", g("sessin", "sessrepr")}, {"ircserver.IRCServer.Unmarshal", g("sessin", "nicks")},
 			{"ircserver.IRCServer.Unmarshal", g("sessin", "services")}, {"ircserver.IRCServer.Unmarshal", g("sessin", "modes")},
 			{"ircserver.IRCServer.Unmarshal", g("sessin", "chans")},
 			{"ircserver.IRCServer.Unmarshal", g("config")}, {"ircserver.IRCServer.Unmarshal", g("holds")}, {"ircserver.IRCServer.Unmarshal", g("chan", "channicks")},
 		}
+		// the channel table, writer side: one unit per piece, the other pieces assumed (vc.UnitOpts.AssumeGroups);
+		// marshalUnits checks that every assumed group is proved by some unit
+		p.Units = append(p.Units, marshalUnits()...)
 		return nil
 	}
 	p.Structural = func(e *vc.Engine) []StructResult {
